@@ -236,3 +236,4 @@ BOUNDS = dict(
     "grammar with dimensions <= 6 (one of 8 fixed samples, chosen by VERIF_SEED mod 8)",
     rhs="1-D, n x 1, n x 2; dtypes float32/float64/complex64/complex128",
     values="all payload entries and right-hand sides symbolic (unbounded reals / complex)")
+BOUNDS["added"] = 'rule-less wide operators (8 * rows < cols: the generic densification multiplies the identity from the left) and sums of >= 3 terms whose first / middle term returns its operand (aliasing accumulations)'
